@@ -11,7 +11,7 @@ from plumpy import communications, futures, loaders
 from plumpy import process_comms as pc
 from plumpy import process_states as ps
 
-from pv import comm, judges, plans, programs
+from pv import comm, generated, judges, plans, programs
 from pv.driver import BudgetExceeded, Driver
 from pv.monitors import c19
 from pv.programs import _jsonable
@@ -29,7 +29,7 @@ RULE = ('histories of 2-6 tasks from {create(persist), launch(persist, nowait), 
         'checkpoints under a second tag are taken by the harness from a partly run instance; distinct by (config, history); non-trivial when '
         '>=1 task was honoured and the model predicted a reply')
 ASSUMPTIONS = ['the RabbitMQ transport is replaced by the in-process communicator of pv/comm.py', 'errors may arrive wrapped in RemoteException']
-REQUIRED = ['tasks/create', 'tasks/launch', 'tasks/continue', 'tasks/bogus', 'rejected', 'persisted_checks', 'nowait_replies', 'wait_replies', 'error_replies',
+REQUIRED = ['late_failures', 'tasks/create', 'tasks/launch', 'tasks/continue', 'tasks/bogus', 'rejected', 'persisted_checks', 'nowait_replies', 'wait_replies', 'error_replies',
             'route/direct', 'route/thread', 'route/async', 'persister/none', 'persister/mem', 'persister/pickle', 'persister/failing', 'loader/custom',
             'loader/custom_ctx', 'continued_from_tag', 'traces_checked', 'killed_replies']
 BOUNDS = {'quick': '400 histories', 'thorough': '6000 histories'}
@@ -39,7 +39,18 @@ PROGS = {
     'plain': {'steps': [S(['cont', [1], {}], yields=1, fx=[(0, ['out', 'o', 1])]), S(['value', 5], sync=True)]},
     'waits': {'steps': [S(['wait', 'w', None], sync=True, fx=[(0, ['out', 'o', 2])]), S(['cont', [], {}], yields=1), S(['value', 6], sync=True)]},
     'fails': {'steps': [S(['cont', [], {}], sync=True), S(['raise', 'task-prog-fails'], yields=1)]},
+    # records its outputs and result, then fails in the hook called after FINISHED was entered: ends EXCEPTED
+    'latefail': {'steps': [S(['cont', [2], {}], yields=1, fx=[(0, ['out', 'o', 3])]), S(['value', 7], sync=True)], 'late_fail': True},
 }
+
+
+class LateFail(programs.ProgBase):
+    def on_finished(self):
+        super().on_finished()
+        raise programs.ProgError('task-prog-fails-late')
+
+
+generated.register(LateFail, 'LateFail')
 
 
 class FailingPersister(plumpy.InMemoryPersister):
@@ -75,8 +86,13 @@ def gen_cases(tier, seed):
                     op.append('kill')
                 hist.append(op)
             else:
-                hist.append(['bogus'])
+                hist.append(['bogus', rng.choice(BOGUS)])
         yield {'persister': persister, 'loader': loader, 'route': route, 'history': hist}
+
+
+#: unknown task types, among them names that resemble the known ones or attributes of the launcher object
+BOGUS = ['no-such-task', 'LAUNCH', 'launch ', 'Launch', '_launch', 'kill', 'pause', '', 'persister', 'loader', 'load_context', 'loop', '_call__', '_init__',
+         '_class__', '_dict__', '_repr__', 'continue_', 'create_', 0, None]
 
 
 def _reply(fut):
@@ -107,7 +123,7 @@ def _reply(fut):
 def run_case(case):
     V = judges.V
     obs = {'tasks': {}, 'rejected': 0, 'persisted_checks': 0, 'nowait_replies': 0, 'wait_replies': 0, 'error_replies': 0, 'route': {case['route']: 1},
-           'persister': {case['persister']: 1}, 'loader': {case['loader']: 1}, 'continued_from_tag': 0, 'traces_checked': 0, 'custom_loads': 0}
+           'persister': {case['persister']: 1}, 'loader': {case['loader']: 1}, 'continued_from_tag': 0, 'traces_checked': 0, 'custom_loads': 0, 'bogus_names': {}}
     viol = []
     workdir = tempfile.mkdtemp(prefix='c17-', dir=os.environ.get('PV_WORK') or None)
     loaders.set_object_loader(None)
@@ -129,7 +145,7 @@ def run_case(case):
             tctl = pc.RemoteProcessThreadController(base)
             actl = pc.RemoteProcessController(base)
             programs.INSTANCES.clear()
-            classes = {k: programs.program_class(v) for k, v in PROGS.items()}
+            classes = {k: programs.program_class(v, LateFail if v.get('late_fail') else None) for k, v in PROGS.items()}
             made = []  # per create/launch task: {'pid', 'prog', 'persisted'}
             can_persist = case['persister'] in ('mem', 'pickle')
 
@@ -207,9 +223,14 @@ def run_case(case):
                 cps_before = _keys(persister)
                 ctx = '%s: %s after %s' % (label, op, case['history'][:case['history'].index(op)])
                 if kind == 'bogus':
-                    rep = send({'task': 'no-such-task'}, False)
+                    name = op[1] if len(op) > 1 else 'no-such-task'
+                    msg = {'task': name}
+                    if isinstance(name, str) and len(name) % 2:
+                        msg['args'] = {}
+                    rep = send(msg, False)
                     if rep != ['rejected']:
-                        viol.append(V('bogus-not-rejected', 'bogus-not-rejected', '%s: unknown task type answered %s' % (ctx, rep)))
+                        viol.append(V('bogus-not-rejected', 'bogus-not-rejected', '%s: unknown task type %r answered %s' % (ctx, name, rep)))
+                    obs['bogus_names'][repr(name)] = 1
                     obs['rejected'] += 1
                     new = [p for p in programs.INSTANCES if id(p) not in before]
                     if new:
@@ -368,6 +389,9 @@ def _check_completed(proc, prog, rep, ctx, viol, obs, V, full):
         viol.append(V('task-trace', 'task-trace:%s' % ('launch' if full else 'continue'), '%s: executed steps %s, expected %s' % (ctx, got, exp['enters'])))
         return
     st, payload = exp['final']
+    if PROGS[prog].get('late_fail'):
+        st = 'excepted'
+        obs['late_failures'] = obs.get('late_failures', 0) + 1
     if proc.state.value != st:
         viol.append(V('task-not-completed', 'task-not-completed', '%s: process ended %s, expected %s' % (ctx, proc.state.value, st)))
         return
